@@ -146,6 +146,33 @@ def signals(rec):
                     res.append(('C16.a:der_time_signal:' + tag, 'ok' if okm else 'mismatch', 'der((x+v)*t) sampled %s expected %s' % (list(got)[:4], want[:4])))
             except Exception as e:
                 res.append(('C17.b:%s:%s' % ('der' if with_der else 'signal', tag), 'error', '%s: %s' % (type(e).__name__, (str(e).splitlines() or [''])[-1][:160])))
+    # a B-spline parameter *and* a B-spline variable in the ODE under DirectCollocation with M = 3: the collocation rows see
+    # the parameter at every collocation time (at this probe all states, controls and the variable's coefficients are zero)
+    try:
+        ocp = Ocp(t0=0.5, T=T)
+        x = ocp.state(); u = ocp.control(); w = ocp.variable()
+        p = ocp.parameter(grid='bspline', order=d)
+        vb = ocp.variable(grid='bspline', order=max(d, 1))
+        ocp.set_der(x, u + p + 2 * w + vb)
+        ocp.add_objective(ocp.integral(u ** 2) + w ** 2 + ocp.integral(vb ** 2, grid='control'))
+        ocp.set_value(p, ca.DM([fl(c) for c in rec['coef']]).T)
+        ocp.solver('ipopt')
+        ocp.method(DirectCollocation(N=N, M=3, degree=2, scheme='radau', grid=FunctionGrid(lambda n: list(nodes))))
+        quiet(lambda: ocp._transcribed)
+        opti, vx, vp = _inputs(ocp)
+        pvv = np.array(opti.debug.value(vp, opti.initial())).reshape(-1)
+        wloc = locate(quiet(ocp.value, w), opti, [(np.ones(vx.numel()), pvv), (-np.ones(vx.numel()), pvv)])[0]
+        xv = np.zeros(vx.numel()); xv[wloc[0]] = 0.75 / wloc[1]
+        g = np.array(ca.Function('g', [vx, vp], [opti.g])(xv, pvv)).reshape(-1)
+        lb = np.array(ca.Function('g', [vx, vp], [opti.lbg])(xv, pvv)).reshape(-1)
+        got = sorted(abs(v) for v in (g - lb) if abs(v) > 1e-12)
+        if any(isbad(cv) for row in rec['colvals'] for cv in row): res.append(('C17.b:ode_param_dc', 'inconclusive', ''))
+        else:
+            want = sorted(abs(fl(cv) + 1.5) for row in rec['colvals'] for cv in row if abs(fl(cv) + 1.5) > 1e-12)
+            okg = len(got) == len(want) and all(abs(a - b_) <= 1e-9 * max(1, abs(b_)) for a, b_ in zip(got, want))
+            res.append(('C17.b:ode_param_dc', 'ok' if okg else 'mismatch', 'collocation residuals %s expected %s' % (np.round(got, 6).tolist()[:8], np.round(want, 6).tolist()[:8])))
+    except Exception as e:
+        res.append(('C17.b:ode_param_dc', 'error', '%s: %s' % (type(e).__name__, (str(e).splitlines() or [''])[-1][:160])))
     # ocp.integral of an integrand that mentions a B-spline signal only (no state, no time) under DirectCollocation: the collocation
     # quadrature of the stage, not a left sum (C05)
     try:
